@@ -663,6 +663,17 @@ def http_feed_data(u: U):
         # a partial line refused as too long: inside the loop the tail is empty (invariant), so a non-empty tail at a
         # LineTooLong exit is the partial line that was just refused
         t = p._tail
+        EL = _exc_locals(out.exc)
+        if head and head.get("pp") is None and "data" in EL and "start_pos" in EL and isinstance(EL["data"], (SBytes, bytes)):
+            # whatever the reason given: unconsumed input that is just a CR may be the first half of a CRLF - of an empty
+            # line that is skipped in front of a start line, or of the line that ends a header block - so refusing it
+            # now makes the verdict depend on whether the read boundary fell between that CR and its LF
+            rest = SBytes.of(EL["data"]).slice(EL["start_pos"], None)
+            # (no line was taken in this iteration: the error is about the unconsumed byte, not about a message just parsed)
+            if u.branch(And(Not(head["upgraded"]), blen(rest) == 1, p._lines.sym_len() == head["nlines"]), "one_byte_left"):
+                u.check("C03.tail.lone_cr_is_kept", rest.byte_at(0) != 13,
+                        "a read that ends in a lone CR is never refused for that CR: the same stream in one read is "
+                        "accepted when LF follows", witness={"error": type(out.exc).__name__})
         if isinstance(out.exc, E.LineTooLong) and isinstance(t, SBytes) and u.branch(blen(t) > 0, "partial_line_refused"):
             first = p._lines.sym_len() == 0
             limit = Ite(first, p.max_line_size, p.max_field_size)
